@@ -211,7 +211,9 @@ def apply_real(o, op, step):
         else:
             raise ValueError(op)
     except (KeyError, ValueError, IndexError) as e:
-        return ('raises', type(e).__name__)
+        for base in ('KeyError', 'ValueError', 'IndexError'):       # the documented class; a subclass of it is as good
+            if base in [c.__name__ for c in type(e).__mro__]:
+                return ('raises', base)
     if r is hszinc.MARKER:
         r = 'MARKER'
     return ('ok', r)
